@@ -157,6 +157,10 @@ def sdmx_settings(kind, rng=None):
         return st.SDMXGSettings([0, 1], 1)
     if kind == "sdmx1":
         return st.SDMX1Settings([0, 1], 1)
+    if kind == "sdmx1b":   # two vector (l = 1) terms in one settings object
+        return st.SDMX1Settings([0, 1], 2)
+    if kind == "sdmxg1b":
+        return st.SDMXG1Settings([1, 0, 2], 1, 2)
     if kind == "sdmxg1":
         return st.SDMXG1Settings([0, 1], 1, 1)
     if kind == "sdmxfull":
@@ -192,6 +196,8 @@ FAMILIES = {
     "sdmxg": ("npa", None, None, "sdmxg"),
     "sdmx1": ("npa", None, None, "sdmx1"),
     "sdmxg1": ("npa", None, None, "sdmxg1"),
+    "sdmx1b": ("npa", None, None, "sdmx1b"),
+    "sdmxg1b": ("npa", None, None, "sdmxg1b"),
     "vj+sdmx": ("npa", "j", "MGGA", "sdmx01"),
     "vj-nst": ("nst", "j", "MGGA", None),
     "vj-expnt": ("npa", "j", "MGGA", None),
